@@ -891,7 +891,13 @@ class Extractor:
         for c in contracts:
             for p in c.proofs:
                 block = ('\n%s\n' % p.text) if p.raw else ('\n proof {\n%s\n }\n' % p.text)
-                if p.where == 'body-start':
+                if p.where == 'after-write':
+                    ws = self.find_write_stmts(src, toks, lo, hi)
+                    if p.nth < 1 or p.nth > len(ws):
+                        self.report['unanchored'].append({'what': '%s proof after-write #%d' % (path, p.nth), 'src': p.src})
+                        continue
+                    edits.append(Edit(ws[p.nth - 1], ws[p.nth - 1], block, ('inj', 'proof', p.src, 'proof')))
+                elif p.where == 'body-start':
                     edits.append(Edit(body_src_lo, body_src_lo, block, ('inj', 'proof', p.src, 'proof')))
                 elif p.where == 'fn-end':
                     edits.append(Edit(body_src_hi, body_src_hi, block, ('inj', 'proof', p.src, 'proof')))
@@ -1018,6 +1024,38 @@ class Extractor:
         if drops:
             ctx['_pending_drops'] = drops
         return edits
+
+    def find_write_stmts(self, src, toks, lo, hi):
+        """End offsets of the simple statements (`...;`) that perform a stream write, in source order."""
+        res = []
+        starts = [lo]
+        for j in range(lo, hi):
+            if toks[j].text in ('{', ';', '}'):
+                starts.append(j + 1)
+        for s_ in starts:
+            if s_ >= hi:
+                continue
+            j = s_
+            end = None
+            has_block = False
+            while j < hi:
+                t = toks[j]
+                if t.kind == 'open':
+                    if t.text == '{':
+                        has_block = True
+                    j = match_close(toks, j) + 1
+                    continue
+                if t.kind == 'close':
+                    break
+                if t.text == ';':
+                    end = t.end; break
+                j += 1
+            if end is None or has_block:
+                continue
+            text = src[toks[s_].start:end]
+            if re.search(r'(\.write_[a-z0-9_]*|\.write|write_zeros|write_box_header_ext|\.write_box|\.write_desc|\bwrite_desc)\s*(::<\w+>)?\s*\(', text):
+                res.append(end)
+        return sorted(set(res))
 
     def find_anchor(self, src, toks, lo, hi, anchor: str, nth: int):
         """Locate the nth statement whose whitespace-normalised text starts with / contains the anchor.
